@@ -27,7 +27,9 @@ RULE = ('every pair (left, right) of tables whose key vectors range over ALL tup
         'compound key (2 columns over {None,i1}, by argument and natural) / compound lkey,rkey with swapped '
         'right columns / ragged rows (full, short before the key, short after the key, long, empty; not for '
         'antijoin, which does not square up) x missing / lprefix,rprefix / missing=text / presorted=True on '
-        'inputs already in reference key order / presorted=True x ragged rows (full, short after the key, long: the '
+        'inputs already in reference key order / tuple-VALUED cells in a single key field (K4 + (i1,), (i1,i2), '
+        '(None,s1), (): all vectors <=2, thorough also <=3 over {i1,(i1,),(i1,i2),()}; key=, missing=text, and '
+        'lkey/rkey by name and by index with the key in different columns) / presorted=True x ragged rows (full, short after the key, long: the '
         'key cell exists, key sequence in reference order) x missing None/text / right table with key fields only / '
         'field NAMING: ~1200 (thorough ~2500) header schemes in which key and non-key field names are substrings, '
         'prefixes or superstrings of one another (key kid with fields k, id, i, ki, kidx), equal after str() '
@@ -46,7 +48,8 @@ RULE = ('every pair (left, right) of tables whose key vectors range over ALL tup
         'row (the documentation defines no result), natural join of tables without a common field (documented '
         'to fail), ragged inputs to antijoin, unsorted inputs with presorted=True.')
 ASSUMPTIONS = ['tables have at most 3 data rows per side (2 for ragged shapes) and keys come from a 3-6 value '
-               'alphabet with one or two representatives per type class (None, int, float equal to an int, text)',
+               'alphabet with one or two representatives per type class (None, int, float equal to an int, text, tuples of '
+               'length 0-2 incl. one containing None)',
                'row multiplicity is compared type-faithfully (1, 1.0 and True are different cells); order is '
                'only required to be ascending by key, the order inside a key group is not constrained']
 
